@@ -3,76 +3,104 @@ From Verif Require Import Reg.Hwm.
 Local Open Scope Z_scope.
 
 (* ---------- one critical section ---------- *)
-Lemma decide_inr m o v : decide_index m o = inr v ->
-  v = h_version o /\ h_sig_ok o = true /\ h_fresh o = true /\ m <= v.
+Lemma decide_inr st o st' : decide_index st o = inr st' ->
+  st' = mkSt (h_version o) (if h_root o then Some (h_content o) else st_hash st)
+  /\ sig_ok (st_hash st) o = true /\ h_fresh o = true /\ st_mark st <= h_version o.
 Proof.
-  unfold decide_index. destruct (h_sig_ok o); cbn [negb]; [|discriminate].
-  destruct (h_version o <? m) eqn:L; [discriminate|]. apply Z.ltb_ge in L.
+  unfold decide_index. destruct (sig_ok (st_hash st) o); cbn [negb]; [|discriminate].
+  destruct (h_version o <? st_mark st) eqn:L; [discriminate|]. apply Z.ltb_ge in L.
   destruct (h_fresh o); cbn [negb]; [|discriminate]. intros H; inversion H; auto.
 Qed.
 
-Lemma verify_index_mono m o : m <= snd (verify_index m o).
+Lemma decide_inl_not_accept st o r : decide_index st o = inl r -> r <> HAccept.
 Proof.
-  unfold verify_index. destruct (decide_index m o) as [r|v] eqn:D; simpl; [lia|].
-  apply decide_inr in D. destruct (h_save_ok o); simpl; lia.
+  unfold decide_index. destruct (sig_ok _ o); cbn [negb]; [|intros H; inversion H; discriminate].
+  destruct (h_version o <? st_mark st); [intros H; inversion H; discriminate|].
+  destruct (h_fresh o); cbn [negb]; intros H; inversion H; discriminate.
 Qed.
 
-Lemma verify_index_accept m o m' :
-  verify_index m o = (HAccept, m') ->
-  h_sig_ok o = true /\ h_fresh o = true /\ m <= h_version o /\ m' = h_version o.
+Lemma verify_index_mono st o : st_mark st <= st_mark (snd (verify_index st o)).
 Proof.
-  unfold verify_index. destruct (decide_index m o) as [r|v] eqn:D.
-  - intros H. inversion H as [[E1 E2]]. exfalso. rewrite E1 in D. unfold decide_index in D.
-    destruct (h_sig_ok o); cbn [negb] in D; [|discriminate].
-    destruct (h_version o <? m); [discriminate|]. destruct (h_fresh o); discriminate.
+  unfold verify_index. destruct (decide_index st o) as [r|st'] eqn:D; simpl; [lia|].
+  apply decide_inr in D. destruct D as (-> & _ & _ & L). destruct (h_save_ok o); simpl; lia.
+Qed.
+
+(* an accepted call: signatures acceptable with the content on record, fresh, not older than
+   the mark; the state becomes that version (always) and that content (only if root-verified) *)
+Lemma verify_index_accept st o st' :
+  verify_index st o = (HAccept, st') ->
+  sig_ok (st_hash st) o = true /\ h_fresh o = true /\ st_mark st <= h_version o
+  /\ st' = mkSt (h_version o) (if h_root o then Some (h_content o) else st_hash st).
+Proof.
+  unfold verify_index. destruct (decide_index st o) as [r|s1] eqn:D.
+  - intros H. inversion H as [[E1 E2]]. exfalso. rewrite E1 in D.
+    exact (decide_inl_not_accept _ _ _ D eq_refl).
   - apply decide_inr in D. destruct D as (-> & S & F & L).
     destruct (h_save_ok o); intros H; inversion H; subst; auto.
 Qed.
 
-Lemma verify_index_older_refused m o :
-  h_version o < m -> fst (verify_index m o) <> HAccept /\ snd (verify_index m o) = m.
+Lemma verify_index_older_refused st o :
+  h_version o < st_mark st -> fst (verify_index st o) <> HAccept /\ snd (verify_index st o) = st.
 Proof.
   intros L. unfold verify_index, decide_index.
-  destruct (h_sig_ok o); cbn [negb]; [|split; [discriminate|reflexivity]].
+  destruct (sig_ok _ o); cbn [negb]; [|split; [discriminate|reflexivity]].
   apply Z.ltb_lt in L. rewrite L. split; [discriminate|reflexivity].
 Qed.
 
-Lemma verify_index_not_accept_keeps m o :
-  fst (verify_index m o) <> HAccept -> snd (verify_index m o) = m.
+Lemma verify_index_not_accept_keeps st o :
+  fst (verify_index st o) <> HAccept -> snd (verify_index st o) = st.
 Proof.
-  unfold verify_index. destruct (decide_index m o); simpl; [reflexivity|].
+  unfold verify_index. destruct (decide_index st o); simpl; [reflexivity|].
   destruct (h_save_ok o); simpl; [congruence|reflexivity].
 Qed.
 
-(* sequential calls satisfy the sequential monitor *)
-Theorem hrun_monitor : forall ops m,
-  seq_monitor m (combine ops (map (fun rm => (accepted (fst rm), snd rm)) (hrun m ops))) = true.
+(* sequential calls satisfy the sequential monitor (in the model the mark IS the highest
+   accepted version, so the monitor's [top] and [m] coincide) *)
+Theorem hrun_monitor : forall ops st,
+  seq_monitor (st_mark st) (st_mark st) (st_hash st)
+    (combine ops (map (fun rm => (accepted (fst rm), st_mark (snd rm))) (hrun st ops))) = true.
 Proof.
-  induction ops as [|o ops IH]; intros m; simpl; [reflexivity|].
-  destruct (verify_index m o) as [res m'] eqn:V. simpl.
-  pose proof (verify_index_mono m o) as M. rewrite V in M. simpl in M.
-  rewrite IH, andb_true_r. apply andb_true_iff. split; [apply andb_true_iff; split|].
-  - apply Z.leb_le. exact M.
-  - destruct res; simpl; try reflexivity.
-    destruct (verify_index_accept _ _ _ V) as (S & F & L & ->).
-    rewrite S, F, Z.eqb_refl. simpl. rewrite andb_true_r. apply Z.leb_le. exact L.
-  - destruct res; simpl; try reflexivity;
-      pose proof (verify_index_not_accept_keeps m o) as K; rewrite V in K; simpl in K;
-      rewrite K by discriminate; apply Z.eqb_refl.
+  induction ops as [|o ops IH]; intros st; simpl; [reflexivity|].
+  destruct (verify_index st o) as [res st'] eqn:V. simpl.
+  pose proof (verify_index_mono st o) as M. rewrite V in M. simpl in M.
+  destruct res; simpl;
+    try (pose proof (verify_index_not_accept_keeps st o) as K; rewrite V in K; simpl in K;
+         rewrite K by discriminate; rewrite Z.leb_refl, Z.eqb_refl; simpl; apply IH).
+  destruct (verify_index_accept _ _ _ V) as (S & F & L & ->). simpl in *.
+  rewrite S, F, Z.eqb_refl. apply Z.leb_le in L. rewrite L. simpl.
+  apply Z.leb_le in L. rewrite Z.max_r by exact L.
+  specialize (IH (mkSt (h_version o) (if h_root o then Some (h_content o) else st_hash st))).
+  simpl in IH. destruct (h_root o); exact IH.
+Qed.
+
+(* over ANY history of calls the recorded mark is the maximum of the initial mark and the
+   versions of the accepted calls *)
+Theorem hrun_mark_is_max : forall ops st,
+  st_mark (hfinal st ops) = fold_left Z.max (accepted_versions st ops) (st_mark st).
+Proof.
+  induction ops as [|o ops IH]; intros st; simpl; [reflexivity|].
+  destruct (verify_index st o) as [res st'] eqn:V. simpl. rewrite IH.
+  destruct res; simpl;
+    try (pose proof (verify_index_not_accept_keeps st o) as K; rewrite V in K; simpl in K;
+         rewrite K by discriminate; reflexivity).
+  destruct (verify_index_accept _ _ _ V) as (_ & _ & L & ->). simpl.
+  rewrite Z.max_r by exact L. reflexivity.
 Qed.
 
 (* ---------- concurrent callers under the lock ---------- *)
 Definition quiet (p : pc) : Prop := p = PIdle \/ exists r, p = PDone r.
 
-Definition saving_ok (ops : nat -> hop) (sy : sys) (i : nat) (v : Z) : Prop :=
-  mark sy <= v /\ v = h_version (ops i) /\ h_sig_ok (ops i) = true /\ h_fresh (ops i) = true.
+Definition saving_ok (ops : nat -> hop) (sy : sys) (i : nat) (s' : hst) : Prop :=
+  mark sy <= st_mark s' /\ st_mark s' = h_version (ops i)
+  /\ sig_ok (st_hash (cur sy)) (ops i) = true /\ h_fresh (ops i) = true
+  /\ st_hash s' = (if h_root (ops i) then Some (h_content (ops i)) else st_hash (cur sy)).
 
 Definition inv (ops : nat -> hop) (sy : sys) : Prop :=
   match lock sy with
   | None => forall j, quiet (pcs sy j)
   | Some i =>
-      (pcs sy i = PLocked \/ pcs sy i = PLoaded (mark sy)
-       \/ exists v, pcs sy i = PSaving v /\ saving_ok ops sy i v)
+      (pcs sy i = PLocked \/ pcs sy i = PLoaded (cur sy)
+       \/ exists s', pcs sy i = PSaving s' /\ saving_ok ops sy i s')
       /\ forall j, j <> i -> quiet (pcs sy j)
   end.
 
@@ -88,15 +116,15 @@ Proof.
   - rewrite upd_other by assumption. auto.
 Qed.
 
-Lemma inv_init ops m0 : inv ops (init m0).
+Lemma inv_init ops s0 : inv ops (init s0).
 Proof. intros j. left. reflexivity. Qed.
 
 (* the holder of the lock is the only caller that is not idle or done *)
 Lemma holder ops sy i :
   inv ops sy -> ~ quiet (pcs sy i) ->
   lock sy = Some i /\
-  (pcs sy i = PLocked \/ pcs sy i = PLoaded (mark sy)
-   \/ exists v, pcs sy i = PSaving v /\ saving_ok ops sy i v)
+  (pcs sy i = PLocked \/ pcs sy i = PLoaded (cur sy)
+   \/ exists s', pcs sy i = PSaving s' /\ saving_ok ops sy i s')
   /\ forall j, j <> i -> quiet (pcs sy j).
 Proof.
   unfold inv. intros I Q. destruct (lock sy) as [h|].
@@ -108,31 +136,32 @@ Qed.
 Lemma tstep_inv ops sy i :
   inv ops sy -> inv ops (tstep true ops sy i) /\ mark sy <= mark (tstep true ops sy i).
 Proof.
-  intros I. unfold tstep.
-  destruct (pcs sy i) as [| |m|v|r] eqn:P.
+  intros I. unfold tstep, mark.
+  destruct (pcs sy i) as [| |s|s'|r] eqn:P.
   - (* idle: take the lock if it is free *)
     unfold inv in I. destruct (lock sy) as [h|] eqn:L; [split; [unfold inv; rewrite L; exact I|lia]|].
     split; [|simpl; lia]. unfold inv. simpl. split; [left; apply upd_same|].
     intros j N. rewrite upd_other by assumption. apply I.
-  - (* locked: load the mark *)
+  - (* locked: load the state *)
     destruct (holder ops sy i I) as (L & _ & Ho); [rewrite P; intros [Q|[r Q]]; discriminate|].
     split; [|simpl; lia]. unfold inv. simpl. rewrite L. split; [right; left; apply upd_same|].
     intros j Nj. rewrite upd_other by assumption. auto.
   - (* loaded: decide *)
     destruct (holder ops sy i I) as (L & Hh & Ho); [rewrite P; intros [Q|[r Q]]; discriminate|].
-    assert (Em : m = mark sy).
+    assert (Em : s = cur sy).
     { destruct Hh as [Q|[Q|[v [Q _]]]]; congruence. }
-    subst m. destruct (decide_index (mark sy) (ops i)) as [r|v] eqn:D.
+    subst s. destruct (decide_index (cur sy) (ops i)) as [r|s1] eqn:D.
     + split; [|simpl; lia]. unfold inv. simpl. intros j. apply quiet_upd_done. exact Ho.
     + split; [|simpl; lia]. unfold inv. simpl. rewrite L.
-      apply decide_inr in D. destruct D as (Ev & Sg & Fr & Le).
-      split; [right; right; exists v; split; [apply upd_same|repeat split; assumption]|].
-      intros j Nj. rewrite upd_other by assumption. auto.
+      apply decide_inr in D. destruct D as (-> & Sg & Fr & Le).
+      split; [right; right; eexists; split; [apply upd_same|]|].
+      * unfold saving_ok, mark. simpl. repeat split; auto.
+      * intros j Nj. rewrite upd_other by assumption. auto.
   - (* saving *)
     destruct (holder ops sy i I) as (L & Hh & Ho); [rewrite P; intros [Q|[r Q]]; discriminate|].
-    assert (Sv : saving_ok ops sy i v).
+    assert (Sv : saving_ok ops sy i s').
     { destruct Hh as [Q|[Q|[v' [Q Sv]]]]; congruence. }
-    destruct Sv as (Le & _).
+    destruct Sv as (Le & _). unfold mark in Le.
     destruct (h_save_ok (ops i)); (split; [|simpl; lia]); unfold inv; simpl;
       intros j; apply quiet_upd_done; exact Ho.
   - split; [exact I|lia].
@@ -144,62 +173,130 @@ Proof.
   apply IH. apply tstep_inv. exact I.
 Qed.
 
-(* For every number of callers, every assignment of indexes to them and EVERY interleaving of
-   their atomic steps, the mark never decreases. *)
-Theorem hwm_monotone : forall ops m0 sched,
-  nondecreasing m0 (marks true ops (init m0) sched) = true.
+(* For every number of callers, every assignment of indexes (root-signed or freshness-only) to
+   them and EVERY interleaving of their atomic steps, the mark never decreases. *)
+Theorem hwm_monotone : forall ops s0 sched,
+  nondecreasing (st_mark s0) (marks true ops (init s0) sched) = true.
 Proof.
-  intros ops m0 sched. pose proof (inv_init ops m0) as I. revert I.
-  change m0 with (mark (init m0)) at 2. generalize (init m0).
+  intros ops s0 sched. pose proof (inv_init ops s0) as I. revert I.
+  change (st_mark s0) with (mark (init s0)). generalize (init s0).
   induction sched as [|i r IH]; intros sy I; simpl; [reflexivity|].
   destruct (tstep_inv ops sy i I) as [I' Le].
   apply andb_true_iff. split; [apply Z.leb_le; exact Le|apply IH; exact I'].
 Qed.
 
-(* A call returns success only at its saving step, with the mark it read still in force, for a
-   version that is not older than that mark and passed every check; the mark then becomes
-   exactly that version (it is persisted only after every check).  Whatever the interleaving. *)
-Theorem hwm_accept_sound : forall ops m0 sched i,
-  let sy := exec true ops (init m0) sched in
+(* A call returns success only at its saving step, with the state it read still in force, with
+   signatures acceptable for the content on record (root, or freshness over unchanged
+   content), fresh, for a version not older than the mark; the mark then becomes exactly that
+   version - for BOTH kinds of acceptance - and the content on record changes only when the
+   call was root-verified.  Whatever the interleaving. *)
+Theorem hwm_accept_sound : forall ops s0 sched i,
+  let sy := exec true ops (init s0) sched in
   let sy' := tstep true ops sy i in
   pcs sy i <> PDone HAccept -> pcs sy' i = PDone HAccept ->
   mark sy <= h_version (ops i) /\ mark sy' = h_version (ops i)
-  /\ h_sig_ok (ops i) = true /\ h_fresh (ops i) = true.
+  /\ sig_ok (st_hash (cur sy)) (ops i) = true /\ h_fresh (ops i) = true
+  /\ st_hash (cur sy') = (if h_root (ops i) then Some (h_content (ops i)) else st_hash (cur sy)).
 Proof.
-  intros ops m0 sched i sy sy' Hn Hd.
+  intros ops s0 sched i sy sy' Hn Hd.
   assert (I : inv ops sy) by (apply exec_inv, inv_init).
-  subst sy'. unfold tstep in Hd |- *.
-  destruct (pcs sy i) as [| |m|v|r] eqn:P.
+  subst sy'. unfold tstep in Hd |- *. unfold mark.
+  destruct (pcs sy i) as [| |s|s'|r] eqn:P.
   - destruct (lock sy); simpl in Hd; [congruence|rewrite upd_same in Hd; discriminate].
   - simpl in Hd. rewrite upd_same in Hd. discriminate.
-  - destruct (decide_index m (ops i)) as [r|v] eqn:D; simpl in Hd; rewrite upd_same in Hd.
-    + inversion Hd; subst. unfold decide_index in D.
-      destruct (h_sig_ok (ops i)); cbn [negb] in D; [|discriminate].
-      destruct (h_version (ops i) <? m); [discriminate|]. destruct (h_fresh (ops i)); discriminate.
+  - destruct (decide_index s (ops i)) as [r|s1] eqn:D; simpl in Hd; rewrite upd_same in Hd.
+    + inversion Hd; subst. exfalso. exact (decide_inl_not_accept _ _ _ D eq_refl).
     + discriminate.
   - destruct (holder ops sy i I) as (L & Hh & Ho); [rewrite P; intros [Q|[r Q]]; discriminate|].
-    assert (Sv : saving_ok ops sy i v).
+    assert (Sv : saving_ok ops sy i s').
     { destruct Hh as [Q|[Q|[v' [Q Sv]]]]; congruence. }
-    destruct Sv as (Le & Ev & Sg & Fr).
+    destruct Sv as (Le & Ev & Sg & Fr & Eh). unfold mark in Le.
     destruct (h_save_ok (ops i)); simpl in *.
-    + subst v. auto.
+    + rewrite <- Ev. auto.
     + rewrite upd_same in Hd. discriminate.
   - congruence.
 Qed.
 
-(* an index older than the mark in force is refused: the caller that read mark m with a
-   version below it ends with the rollback refusal (or the integrity refusal), never success *)
-Theorem hwm_older_refused : forall m o,
-  h_version o < m -> exists r, decide_index m o = inl r /\ (r = HRollback \/ r = HIntegrity).
+(* an index older than the mark in force is refused: the caller that read the state with a
+   version below its mark ends with the rollback refusal (or the integrity refusal), never success *)
+Theorem hwm_older_refused : forall st o,
+  h_version o < st_mark st -> exists r, decide_index st o = inl r /\ (r = HRollback \/ r = HIntegrity).
 Proof.
-  intros m o L. unfold decide_index. destruct (h_sig_ok o); cbn [negb]; [|eauto].
+  intros st o L. unfold decide_index. destruct (sig_ok _ o); cbn [negb]; [|eauto].
   apply Z.ltb_lt in L. rewrite L. eauto.
+Qed.
+
+(* In every reachable state the mark is the maximum of the initial mark and the versions of
+   the calls that have returned success: none of them exceeds it, and it is the initial mark
+   or one of them. *)
+Definition max_accepted (ops : nat -> hop) (m0 : Z) (sy : sys) : Prop :=
+  m0 <= mark sy
+  /\ (forall j, pcs sy j = PDone HAccept -> h_version (ops j) <= mark sy)
+  /\ (mark sy = m0 \/ exists j, pcs sy j = PDone HAccept /\ h_version (ops j) = mark sy).
+
+Lemma tstep_max ops m0 sy i :
+  inv ops sy -> max_accepted ops m0 sy -> max_accepted ops m0 (tstep true ops sy i).
+Proof.
+  intros I (M0 & Hle & Hex). unfold tstep.
+  (* a caller that already returned success keeps that state under any update of another pc *)
+  assert (Keep : forall x, x <> PDone HAccept -> pcs sy i <> PDone HAccept ->
+            max_accepted ops m0 (mkSys (lock sy) (cur sy) (upd (pcs sy) i x))
+            /\ forall l, max_accepted ops m0 (mkSys l (cur sy) (upd (pcs sy) i x))).
+  { intros x Hx Hi.
+    assert (K : forall l, max_accepted ops m0 (mkSys l (cur sy) (upd (pcs sy) i x))).
+    { intros l. unfold max_accepted, mark in *. simpl. split; [exact M0|]. split.
+      - intros j Hj. destruct (Nat.eq_dec j i) as [->|N]; [rewrite upd_same in Hj; congruence|].
+        rewrite upd_other in Hj by assumption. auto.
+      - destruct Hex as [E|(j & Hj & Ej)]; [left; exact E|right].
+        exists j. split; [|exact Ej]. destruct (Nat.eq_dec j i) as [->|N]; [congruence|].
+        rewrite upd_other by assumption. exact Hj. }
+    split; apply K. }
+  destruct (pcs sy i) as [| |s|s'|r] eqn:P.
+  - destruct (lock sy); [split; [exact M0|split; [exact Hle|exact Hex]]|].
+    apply Keep; discriminate.
+  - apply (Keep (PLoaded (cur sy))); discriminate.
+  - destruct (decide_index s (ops i)) as [r|s1] eqn:D.
+    + apply Keep; [|discriminate]. intros E. inversion E; subst.
+      exact (decide_inl_not_accept _ _ _ D eq_refl).
+    + apply (Keep (PSaving s1)); discriminate.
+  - destruct (holder ops sy i I) as (L & Hh & Ho); [rewrite P; intros [Q|[r Q]]; discriminate|].
+    assert (Sv : saving_ok ops sy i s').
+    { destruct Hh as [Q|[Q|[v' [Q Sv]]]]; congruence. }
+    destruct Sv as (Le & Ev & _).
+    destruct (h_save_ok (ops i)).
+    + unfold max_accepted, mark in *. simpl. split; [lia|]. split.
+      * intros j Hj. destruct (Nat.eq_dec j i) as [->|N]; [lia|].
+        rewrite upd_other in Hj by assumption. specialize (Hle j Hj). lia.
+      * right. exists i. split; [apply upd_same|symmetry; exact Ev].
+    + apply Keep; discriminate.
+  - split; [exact M0|split; [exact Hle|exact Hex]].
+Qed.
+
+Theorem hwm_mark_is_max_accepted : forall ops s0 sched,
+  max_accepted ops (st_mark s0) (exec true ops (init s0) sched).
+Proof.
+  intros ops s0 sched.
+  assert (I : inv ops (init s0)) by apply inv_init.
+  assert (M : max_accepted ops (st_mark s0) (init s0)).
+  { unfold max_accepted, mark. simpl. split; [lia|]. split; [intros j H; discriminate|left; reflexivity]. }
+  revert I M. generalize (init s0).
+  induction sched as [|i r IH]; intros sy I M; simpl; [exact M|].
+  apply IH; [apply tstep_inv; exact I|apply tstep_max; assumption].
 Qed.
 
 (* without the lock the mark CAN decrease: two callers, versions 5 and 3, both load mark 0 *)
 Example hwm_unlocked_refuted :
-  let ops := fun i => match i with 0%nat => mkH 5 true true true | _ => mkH 3 true true true end in
-  marks false ops (init 0) [0; 1; 0; 1; 0; 1; 0; 1]%nat = [0; 0; 0; 0; 0; 0; 5; 3].
+  let ops := fun i => match i with 0%nat => mkH 5 true false 0 true true | _ => mkH 3 true false 0 true true end in
+  marks false ops (init (mkSt 0 None)) [0; 1; 0; 1; 0; 1; 0; 1]%nat = [0; 0; 0; 0; 0; 0; 5; 3].
+Proof. vm_compute. reflexivity. Qed.
+
+(* a freshness-only index advances the mark and keeps the content on record; a later index
+   older than it is refused even though it is validly root-signed *)
+Example hwm_freshness_advances_mark :
+  map (fun rs => (fst rs, st_mark (snd rs)))
+      (hrun (mkSt 0 None) [mkH 5 true false 1 true true; mkH 9 false true 1 true true;
+                           mkH 7 true false 1 true true; mkH 9 false true 2 true true])
+  = [(HAccept, 5); (HAccept, 9); (HRollback, 9); (HIntegrity, 9)].
 Proof. vm_compute. reflexivity. Qed.
 
 (* ---------- any batch the acceptor explains satisfies the property monitor ---------- *)
@@ -220,10 +317,10 @@ Proof.
   rewrite E. destruct (Z.max_spec a y) as [[_ ->]|[_ ->]]; [right; left; reflexivity|left; reflexivity].
 Qed.
 
-Theorem batch_explained_monitor : forall m0 log mend,
-  batch_explained m0 log mend = true -> batch_monitor m0 log mend = true.
+Theorem batch_explained_monitor : forall m0 h0 log mend,
+  batch_explained m0 h0 log mend = true -> batch_monitor m0 h0 log mend = true.
 Proof.
-  intros m0 log mend H. unfold batch_explained in H. apply andb_true_iff in H as [Ht Hf].
+  intros m0 h0 log mend H. unfold batch_explained in H. apply andb_true_iff in H as [Ht Hf].
   set (acc := map (fun x => h_version (fst x)) (filter (fun x => accepted (snd x)) log)) in *.
   apply Z.eqb_eq in Ht. rewrite forallb_forall in Hf.
   unfold batch_monitor. apply andb_true_iff. split; [apply andb_true_iff; split|].
@@ -240,9 +337,6 @@ Proof.
     + apply orb_true_iff. right. apply existsb_exists.
       unfold acc in Hi. apply in_map_iff in Hi. destruct Hi as ([o r] & Ev & Hi).
       apply filter_In in Hi. destruct Hi as [Hin Ha]. simpl in *.
-      exists (o, r). split; [exact Hin|]. simpl. rewrite Ha.
-      specialize (Hf _ Hin). simpl in Hf. destruct r; try discriminate.
-      apply andb_true_iff in Hf as [Hf _]. apply andb_true_iff in Hf as [Hf _].
-      apply andb_true_iff in Hf as [S F]. rewrite S, F. simpl.
+      exists (o, r). split; [exact Hin|]. simpl. rewrite Ha. simpl.
       apply Z.eqb_eq. rewrite Ht. fold acc. exact Ev.
 Qed.
